@@ -68,6 +68,20 @@ def run(res, ctx):
                 r["sd"] = datetime.date(y, 12, 31).toordinal() + rng.choice([0, 1])
                 r["td"] = r["sd"] - rng.choice([0, 2])
         cases.append(c)
+    # crafted: gains of different years that cancel exactly, a year whose rows net to zero,
+    # several securities with equal and opposite totals
+    for _ in range(20 if tier == "quick" else 200):
+        d0 = datetime.date(rng.choice([2018, 2019, 2020]), rng.randint(1, 12), rng.randint(1, 28)).toordinal()
+        px = rng.randint(5, 50)
+        dl = rng.randint(1, 4)
+        n = rng.choice([2, 4, 10])
+        rows = [{"sec": "FOO", "td": d0, "sd": d0, "act": "Buy", "sh": core.D(2 * n), "aps": core.D(px), "com": None, "cur": None, "rate": None, "af": None},
+                {"sec": "FOO", "td": d0 + 200, "sd": d0 + 200, "act": "Sell", "sh": core.D(n), "aps": core.D(px + dl), "com": None, "cur": None, "rate": None, "af": None},
+                {"sec": "FOO", "td": d0 + 600, "sd": d0 + 600, "act": "Sell", "sh": core.D(n), "aps": core.D(px - dl), "com": None, "cur": None, "rate": None, "af": None}]
+        if rng.random() < 0.5:
+            rows += [{"sec": "BAR", "td": d0 + 10, "sd": d0 + 10, "act": "Buy", "sh": core.D(3), "aps": core.D(7), "com": None, "cur": None, "rate": None, "af": None},
+                     {"sec": "BAR", "td": d0 + 210, "sd": d0 + 210, "act": "Sell", "sh": core.D(3), "aps": core.D(7 + rng.choice([0, 1, -1])), "com": None, "cur": None, "rate": None, "af": None}]
+        cases.append({"rows": rows, "inits": {}})
     rs = corecheck.run_cases(ctx, cases, render=True)
     gains_jobs = []
     for r in rs:
